@@ -177,3 +177,34 @@ A(M("c07-loop-sorted", "C07", C, "loops.append(Loop(loop))", "loops.append(Loop(
 A(M("c07-stem-coords", "C07", TT, "idx3p = stem.strand3p.last - i", "idx3p = stem.strand3p.first - i", "index-discipline"))
 A(M("c07-range-strand", "C07", TT, "for index_ in range(strand.first, strand.last + 1):", "for index_ in range(strand.first, strand.last):", "index-discipline"))
 A(M("c07-unpaired-test-silent", "C07", C, "if all([entry.pair == 0 for entry in candidate[1:-1]]):", "if all(entry.pair == 0 for entry in candidate[1:-1]):", kind="silent"))
+
+# ---------------------------------------------------------------- C08
+PA = "parser.py"
+A(M("c08-key-no-model", "C08", PA, "key = (atom.model, atom.label, atom.auth, atom.name)", "key = (atom.label, atom.auth, atom.name)", "identity-key-model"))
+A(M("c08-occupancy-dir", "C08", PA, "                or atom.occupancy > unique_atoms[key].occupancy", "                or atom.occupancy < unique_atoms[key].occupancy", "occupancy-wins"))
+A(M("c08-column", "C08", PA, "residue_number = int(line[22:26].strip())", "residue_number = int(line[23:27].strip())", "pdb-columns"))
+A(M("c08-one-marker", "C08", PA, 'if insertion_code in ("?", "."):', 'if insertion_code == "?":', "null-markers"))
+A(M("c08-clash-distance", "C08", PA, "clash_distance: float = 0.5", "clash_distance: float = 0.05", "clash-distance"))
+A(M("c08-clash-loser", "C08", PA, "            atoms_to_keep.discard(j)\n        else:\n            atoms_to_keep.discard(i)", "            atoms_to_keep.discard(i)\n        else:\n            atoms_to_keep.discard(j)", "clash-loser"))
+A(M("c08-clash-cross-model", "C08", PA, "        if unique_atoms_list[i].model != unique_atoms_list[j].model:\n            continue\n", "", "clash-same-model"))
+A(M("c08-model-default", "C08", PA, "atoms = atoms_by_model[list(available_models.keys())[0]]", "atoms = atoms_by_model[list(available_models.keys())[-1]]", "model-selection"))
+A(M("c08-group-key", "C08", PA, "        key = (atom.label, atom.auth, atom.model)", "        key = (atom.label, atom.auth)", "identity-key-model"))
+A(M("c08-none-guard", "C08", PA, "            atom.occupancy is not None\n            and (\n                unique_atoms[key].occupancy is None\n                or atom.occupancy > unique_atoms[key].occupancy\n            )", "            atom.occupancy > unique_atoms[key].occupancy", "optional-occupancy"))
+A(M("c08-isdigit", "C08", PA, "    try:\n        return int(s)\n    except ValueError:\n        return None", "    if s is None or not s.isdigit():\n        return None\n    return int(s)", "int-parsing"))
+A(M("c08-flush", "C08", PA, "    residues.append(\n        Residue3D(label, auth, model, one_letter_name, tuple(residue_atoms))\n    )\n\n    if nucleic_acid_only:", "    if nucleic_acid_only:", "group-runs"))
+A(M("c08-model-col", "C08", PA, "model = int(line[10:14].strip())", "model = int(line[6:10].strip())", "pdb-columns"))
+
+# ---------------------------------------------------------------- C15
+P2 = "parser_v2.py"
+T2 = "tertiary_v2.py"
+A(M("c15-threshold-one-side", "C15", T2, "return distance < 1.5 * AVERAGE_OXYGEN_PHOSPHORUS_DISTANCE_COVALENT", "return distance < 1.4 * AVERAGE_OXYGEN_PHOSPHORUS_DISTANCE_COVALENT", "connect-threshold"))
+A(M("c15-label-chain", "C15", T2, '            if "auth_asym_id" in self.atoms.columns:\n                return self.atoms["auth_asym_id"].iloc[0]\n            else:\n                return self.atoms["label_asym_id"].iloc[0]', '            if "label_asym_id" in self.atoms.columns:\n                return self.atoms["label_asym_id"].iloc[0]\n            else:\n                return self.atoms["auth_asym_id"].iloc[0]', "prefer-auth"))
+A(M("c15-chi-n7", "C15", TT, '            self.find_atom("N9"),\n            self.find_atom("C4"),', '            self.find_atom("N7"),\n            self.find_atom("C4"),', "chi-atoms"))
+A(M("c15-v2-column", "C15", P2, '"resSeq": line[22:26].strip(),', '"resSeq": line[23:27].strip(),', ["pdb-slices-agree", "pdb-slices-v2"]))
+A(M("c15-v2-x", ["C15", "C09"], P2, '"x": line[30:38].strip(),', '"x": line[31:39].strip(),', ["pdb-slices-agree", "pdb-slices-v2"]))
+A(M("c15-sort-key", "C15", T2, "key=lambda r: (r.residue_number, r.insertion_code or \"\")", "key=lambda r: r.residue_number", "connect-order"))
+A(M("c15-dropna", "C15", T2, "grouped = self.atoms.groupby(groupby_cols, dropna=False, observed=False)\n\n        elif", "grouped = self.atoms.groupby(groupby_cols, observed=False)\n\n        elif", "group-columns"))
+A(M("c15-p-atom", "C15", TT, '        p = next_residue_candidate.find_atom("P")\n\n        if o3p is not None and p is not None:\n            distance = numpy', '        p = next_residue_candidate.find_atom("O5\'")\n\n        if o3p is not None and p is not None:\n            distance = numpy', "connect-atoms"))
+A(M("c15-v2-hetatm-prefilter", ["C15", "C09"], P2, "    for line in lines:\n        record_type = line[:6].strip()\n", "    for line in lines:\n        if not line.startswith((\"ATOM \", \"HETATM \", \"MODEL \")):\n            continue\n        record_type = line[:6].strip()\n", "pdb-record-filter"))
+A(M("c15-backbone", "C15", T2, '"beta": [("P", 0), ("O5\'", 0), ("C5\'", 0), ("C4\'", 0)],', '"beta": [("P", 0), ("O5\'", 0), ("C5\'", 0), ("C3\'", 0)],', "backbone-atoms"))
+A(M("c15-chi-order", "C15", TT, "        torsion = self.__chi_purine()\n        if math.isnan(torsion):\n            return self.__chi_pyrimidine()\n        return torsion", "        torsion = self.__chi_pyrimidine()\n        if math.isnan(torsion):\n            return self.__chi_purine()\n        return torsion", "chi-dispatch"))
